@@ -28,7 +28,7 @@ var c09UniverseFull = []rs{
 	{ResourceType: "repository", Resource: "a", Action: "push"},
 	{ResourceType: "repository", Resource: "b", Action: "pull"},
 	{ResourceType: "registry", Resource: "catalog", Action: "*"},
-	{ResourceType: "repository", Resource: "", Action: "pull"}, // empty name: must not be the catalog
+	{ResourceType: "repository", Resource: "", Action: "pull"},   // empty name: must not be the catalog
 	{ResourceType: "repository", Resource: "a", Action: "pulse"}, // unknown action sorting between pull and push
 	{ResourceType: "other", Resource: "x", Action: "y"},
 	{ResourceType: "zz"}, // opaque single word
